@@ -252,6 +252,7 @@ func (tmp *tmpfile) linkAndRename(procdir *os.File, objPath string) error {
 		if err != nil {
 			return err
 		}
+		verifhook.At("link.templinked", "path", objPath)
 		err = os.Rename(tmpname, objPath)
 		if err != nil {
 			os.Remove(tmpname)
